@@ -183,9 +183,11 @@ MCAtts  == {[slot |-> d[1], index |-> d[2], epoch |-> d[1] \div 2, var |-> d[3],
              comm |-> MCComm(d[1], d[2])] : d \in MCDatas, b \in MCBits}
 MCFilters == {<<-1, -1>>, <<0, -1>>, <<-1, 0>>, <<0, 1>>, <<2, 0>>}
 MCSyncItems == {[id |-> "m" \o ToString(s) \o ToString(v) \o ToString(r), kind |-> "msg", slot |-> s, v |-> v,
-                 root |-> r, sub |-> 0] : s \in 0..4, v \in 1..2, r \in 0..1}
-               \cup {[id |-> "c" \o ToString(s) \o ToString(r), kind |-> "contrib", slot |-> s, v |-> 0,
-                      root |-> r, sub |-> 1] : s \in 0..4, r \in 0..1}
+                 root |-> r, sub |-> 0] : s \in 0..3, v \in 1..2, r \in 0..0}
+               \cup {[id |-> "m" \o ToString(s) \o "11", kind |-> "msg", slot |-> s, v |-> 1,
+                       root |-> 1, sub |-> 0] : s \in 0..3}
+               \cup {[id |-> "c" \o ToString(s), kind |-> "contrib", slot |-> s, v |-> 0,
+                      root |-> 0, sub |-> 1] : s \in 0..3}
 
 Init == att = AttEmpty /\ keyed = KeyedEmpty /\ sync = SyncEmpty /\ calls = 0 /\ hist = <<>>
 
@@ -243,7 +245,7 @@ Next == \/ \E a \in MCAtts : AddAtt(a)
         \/ \E pool \in {"ps", "as", "ex"}, key \in 1..3, n \in 1..2 : AddKeyed(pool, key, pool \o ToString(key) \o ToString(n))
         \/ \E pool \in {"ps", "as", "ex"} : All(pool)
         \/ \E it \in MCSyncItems : SyncAdd(it)
-        \/ \E s \in 0..5 : SyncReset(s)
+        \/ \E s \in 0..4 : SyncReset(s)
 
 Spec == Init /\ [][Next]_vars
 
